@@ -16,6 +16,7 @@ Oracle (no model): build 1 exits non-zero, names exactly the failed targets, run
 import concurrent.futures as cf
 import time
 from checks import _walker as W
+from checks import _cliworld
 
 PROPERTY = "C05"
 LEVEL = "proof"
@@ -283,7 +284,7 @@ def run(ctx):
     # ---- (b) CLI histories --------------------------------------------------------------------------
     if ctx.grog_binary() is None:
         return
-    nh = 24 if quick else 200
+    nh = 12 if quick else 200      # corpus-style histories; breadth comes from _cliworld
     seeds = [rng.randrange(1 << 30) for _ in range(nh)]
     results = []
     with cf.ThreadPoolExecutor(max_workers=4) as ex:
@@ -316,6 +317,9 @@ def run(ctx):
                             f"replayed through the model + {len(results)} CLI histories of 3 builds (4..9 targets, 1..3 failing with kinds exit/timeout/"
                             "missing-output/missing-first-of-two-outputs/check, keep-going and fail-fast, 1/2/4 workers; a failing history is repeated once) + fail-fast timing runs + fail-fast one-worker queue runs; non-trivial = distinct "
                             "(family,n,mode,#fail / failure kinds)")
+    # ---- (c) broad randomized CLI worlds (shared generator; the C05-owned oracles are reported here) ----
+    wres, wcov = _cliworld.run_worlds(ctx, 30 if quick else 300, "C05")
+    _cliworld.report(ctx, wres, wcov, "C05")
     ctx.coverage["oracle_failures"] = oracle_fail
     ctx.coverage["disagreements"] = len(disagreements)
     for r in results[:3]:
@@ -328,6 +332,8 @@ def run(ctx):
 
 
 def replay(ctx, rep):
+    if "world" in rep:
+        return _cliworld.replay(ctx, rep)
     if "case" in rep:
         c = rep["case"]
         outs = W.run_impl(ctx, [c])
